@@ -47,6 +47,10 @@ chk("C08",
     "Bounded-exhaustive differential exploration: a project seed (workflow + local action + reusable workflow, clean and noisy variant) in which every kind of name is marked at every definition and use (about 170 occurrences: contexts, properties, functions, step and job ids incl. needs lists, input / secret / output / matrix / env / with keys, action and reusable-workflow interfaces, keys of a fromJSON literal, ['name'] indices); every single occurrence re-cased to UPPER and Capitalised and every pair of occurrences re-cased together (about 17k lints of the real Linter); oracle: the multiset of (file, line, column, kind, lower-cased message) equals that of the original spelling.",
     "Subsets of more than two occurrences are not explored; keywords and string-literal values are never re-cased; string literals in index position count as names." + OVERLAY_NOTE,
     "exhaustive enumeration of all single and pairwise re-casings with a differential oracle")
+chk("C09",
+    "Bounded-exhaustive exploration of composition histories: libraries of 14 jobs, 13 steps and 21 expression strings chosen to write rule state (matrix types incl. .* filters, shell defaults, runner platform, conflicting labels, duplicate ids, needs and outputs, erroneous and syntactically broken items); every sequence without repetition up to length 3 (thorough 4 for jobs and steps) in file order, each linted by the real Linter; differential oracle without hand-written expectations: an item's diagnostics (relative positions, cross-item line references rewritten to item+offset) equal those of the item alone with only its declared dependencies; every ordered pair of jobs additionally under every single map-iteration-order deviation.",
+    "Items are fixed libraries; dependencies of a step are the earlier id-carrying steps (verbatim), of a job its needed jobs." + OVERLAY_NOTE,
+    "exhaustive enumeration of all sequences up to a depth over item libraries with a differential (alone vs composed) oracle; controlled map iteration")
 chk("C10",
     "Stateless model checking of the real Linter.LintFiles under a controlled scheduler: 6 scenarios (shared local action, caller+callee reusable workflow with AST- vs file-derived interface, sibling and nested repositories with different configurations, messages built from shared slices, broken shared callees, -format) x every subset and argument order of the files x semaphore size {1,2} x all interleavings up to 2 preemptions (thorough 3); oracle: per-file diagnostics equal LintFile alone on a fresh Linter, defects of a shared callee exactly once per run, deep fingerprint of all package-level tables and every Config unchanged (AllWebhookTypes at every scheduling point), no deadlock.",
     "Data races proper are outside a cooperative scheduler's reach: the 'no data races' clause is only supported by the modification monitor plus a separate free-running -race pass, not decided. GOMAXPROCS is subsumed by interleavings under data-race freedom. Scenarios are a fixed catalogue of 6 drivers." + OVERLAY_NOTE,
